@@ -91,6 +91,30 @@ impl DiskCache {
     }
 }
 
+#[cfg(xet_verif)]
+fn vitem(key: &Key, item: &CacheItem) -> String {
+    format!(
+        "\"key\":\"{}\",\"s\":{},\"e\":{},\"len\":{},\"crc\":{}",
+        key, item.range.start, item.range.end, item.len, item.checksum
+    )
+}
+
+#[cfg(xet_verif)]
+impl DiskCache {
+    /// (key, start, end, len, checksum, verified) of every tracked item, num_items, total_bytes - under the lock.
+    #[allow(clippy::type_complexity)]
+    pub fn verif_snapshot(&self) -> (Vec<(String, u32, u32, u64, u32, bool)>, usize, u64) {
+        let state = self.state.lock().unwrap();
+        let mut v = Vec::new();
+        for (k, items) in state.inner.iter() {
+            for i in items.iter() {
+                v.push((k.to_string(), i.range.start, i.range.end, i.len, i.checksum, i.is_verified()));
+            }
+        }
+        (v, state.num_items, state.total_bytes)
+    }
+}
+
 impl DiskCache {
     pub fn num_items(&self) -> Result<usize, ChunkCacheError> {
         let state = self.state.lock()?;
@@ -246,10 +270,14 @@ impl DiskCache {
 
             let path = self.item_path(key, &cache_item)?;
 
+            #[cfg(xet_verif)]
+            utils::verif::gate("cc_open", "");
             let mut file = match File::open(&path) {
                 Ok(file) => file,
                 Err(e) => match e.kind() {
                     ErrorKind::NotFound => {
+                        #[cfg(xet_verif)]
+                        utils::verif::emit("CcOpen", || "\"outcome\":\"missing\"".to_string());
                         self.remove_item(key, &cache_item)?;
                         continue;
                     },
@@ -264,6 +292,8 @@ impl DiskCache {
                     file.rewind()?;
                 } else {
                     warn!("computed checksum {checksum} mismatch on cache item {key}/{cache_item}");
+                    #[cfg(xet_verif)]
+                    utils::verif::emit("CcOpen", || "\"outcome\":\"mismatch\"".to_string());
                     self.remove_item(key, &cache_item)?;
                     continue;
                 }
@@ -274,10 +304,14 @@ impl DiskCache {
             let Ok(header) = CacheFileHeader::deserialize(&mut file_reader)
                 .debug_error(format!("failed to deserialize cache file header on path: {path:?}"))
             else {
+                #[cfg(xet_verif)]
+                utils::verif::emit("CcOpen", || "\"outcome\":\"mismatch\"".to_string());
                 self.remove_item(key, &cache_item)?;
                 continue;
             };
 
+            #[cfg(xet_verif)]
+            utils::verif::emit("CcOpen", || "\"outcome\":\"ok\"".to_string());
             let start = cache_item.range.start;
             let result_buf = get_range_from_cache_file(&header, &mut file_reader, range, start)?;
             return Ok(Some(result_buf));
@@ -285,17 +319,25 @@ impl DiskCache {
     }
 
     fn find_match(&self, key: &Key, range: &ChunkRange) -> OptionResult<VerificationCell<CacheItem>, ChunkCacheError> {
+        #[cfg(xet_verif)]
+        utils::verif::gate("cc_find", "");
         let state = self.state.lock()?;
         let Some(items) = state.inner.get(key) else {
+            #[cfg(xet_verif)]
+            utils::verif::emit("CcFind", || format!("\"key\":\"{}\",\"found\":false", key));
             return Ok(None);
         };
 
         // attempt to find a matching range in the given key's items using
         for item in items.iter() {
             if item.range.start <= range.start && range.end <= item.range.end {
+                #[cfg(xet_verif)]
+                utils::verif::emit("CcFind", || format!("{},\"found\":true", vitem(key, item)));
                 return Ok(Some(item.clone()));
             }
         }
+        #[cfg(xet_verif)]
+        utils::verif::emit("CcFind", || format!("\"key\":\"{}\",\"found\":false", key));
         Ok(None)
     }
 
@@ -341,15 +383,21 @@ impl DiskCache {
 
         {
             // write cache item file
+            #[cfg(xet_verif)]
+            utils::verif::gate("cc_write", "");
             let path = self.item_path(key, &cache_item)?;
             let mut fw = SafeFileCreator::new(path)?;
             fw.write_all(&header_buf)?;
             fw.write_all(data)?;
             fw.close()?;
+            #[cfg(xet_verif)]
+            utils::verif::emit("CcWrite", || vitem(key, &cache_item));
         }
 
         // evict items after ensuring the file write but before committing to cache state
         // to avoid removing new item.
+        #[cfg(xet_verif)]
+        utils::verif::gate("cc_commit", "");
         let mut state = self.state.lock()?;
 
         let items = state.inner.entry(key.clone()).or_default();
@@ -387,6 +435,10 @@ impl DiskCache {
         // add the item info in-memory state after evictions are done
         state.num_items += 1;
         state.total_bytes += cache_item.len;
+        #[cfg(xet_verif)]
+        utils::verif::emit("CcCommit", || {
+            format!("{},\"n\":{},\"tb\":{}", vitem(key, &cache_item), state.num_items, state.total_bytes)
+        });
         let item_set = state.inner.entry(key.clone()).or_default();
         item_set.push(VerificationCell::new_verified(cache_item));
 
@@ -395,10 +447,18 @@ impl DiskCache {
 
         // remove files after done with modifying in memory state and releasing lock
         for path in overlapping_item_paths {
+            #[cfg(xet_verif)]
+            utils::verif::gate("cc_del", "");
             remove_file(&path)?;
+            #[cfg(xet_verif)]
+            utils::verif::emit("CcDel", || format!("\"path\":\"{}\",\"why\":\"subsumed\"", path.display()));
         }
         for path in evicted_paths {
+            #[cfg(xet_verif)]
+            utils::verif::gate("cc_del", "");
             remove_file(&path)?;
+            #[cfg(xet_verif)]
+            utils::verif::emit("CcDel", || format!("\"path\":\"{}\",\"why\":\"evicted\"", path.display()));
             // check and try to remove key path if all items evicted for key
             let dir_path = path.parent().ok_or(ChunkCacheError::Infallible)?;
             check_remove_dir(dir_path)?;
@@ -425,12 +485,18 @@ impl DiskCache {
         // validate stored data
         let path = self.item_path(key, cache_item)?;
 
+        #[cfg(xet_verif)]
+        utils::verif::gate("cc_open", "");
         let Ok(mut file) = File::open(path) else {
+            #[cfg(xet_verif)]
+            utils::verif::emit("CcOpen", || "\"outcome\":\"missing\"".to_string());
             self.remove_item(key, cache_item)?;
             return Ok(false);
         };
         let md = file.metadata()?;
         if md.len() != cache_item.len {
+            #[cfg(xet_verif)]
+            utils::verif::emit("CcOpen", || "\"outcome\":\"mismatch\"".to_string());
             self.remove_item(key, cache_item)?;
             return Ok(false);
         }
@@ -438,11 +504,15 @@ impl DiskCache {
         file.read_to_end(&mut buf)?;
         let checksum = crc32fast::hash(&buf);
         if checksum != cache_item.checksum {
+            #[cfg(xet_verif)]
+            utils::verif::emit("CcOpen", || "\"outcome\":\"mismatch\"".to_string());
             self.remove_item(key, cache_item)?;
             return Ok(false);
         }
         let mut reader = Cursor::new(buf);
         let Ok(header) = CacheFileHeader::deserialize(&mut reader) else {
+            #[cfg(xet_verif)]
+            utils::verif::emit("CcOpen", || "\"outcome\":\"mismatch\"".to_string());
             self.remove_item(key, cache_item)?;
             return Ok(false);
         };
@@ -472,6 +542,8 @@ impl DiskCache {
         if data != stored.data.as_ref() {
             return Err(ChunkCacheError::InvalidArguments);
         }
+        #[cfg(xet_verif)]
+        utils::verif::emit("CcOpen", || "\"outcome\":\"ok\"".to_string());
         Ok(true)
     }
 
@@ -496,6 +568,8 @@ impl DiskCache {
                 let len = cache_item.len;
                 let path = self.item_path(&key, cache_item)?;
                 paths.push(path);
+                #[cfg(xet_verif)]
+                utils::verif::emit("CcEvict", || vitem(&key, cache_item));
                 items.remove(idx);
                 if items.is_empty() {
                     state.inner.remove(&key);
@@ -530,9 +604,19 @@ impl DiskCache {
 
     /// removes an item from both the in-memory state of the cache and the file system
     fn remove_item(&self, key: &Key, cache_item: &VerificationCell<CacheItem>) -> Result<(), ChunkCacheError> {
+        #[cfg(xet_verif)]
+        utils::verif::gate("cc_rmstate", "");
         {
             let mut state = self.state.lock()?;
             if let Some(items) = state.inner.get_mut(key) {
+                #[cfg(xet_verif)]
+                if index_of(items, cache_item).is_none() {
+                    let (n, tb) = (state.num_items, state.total_bytes);
+                    utils::verif::emit("CcRmState", || {
+                        format!("{},\"present\":false,\"keyfound\":true,\"n\":{},\"tb\":{}", vitem(key, cache_item), n, tb)
+                    });
+                    return Ok(());
+                }
                 let idx = match index_of(items, cache_item) {
                     Some(idx) => idx,
                     // item is no longer in the state
@@ -544,15 +628,40 @@ impl DiskCache {
                 }
                 state.total_bytes -= cache_item.len;
                 state.num_items -= 1;
+                #[cfg(xet_verif)]
+                utils::verif::emit("CcRmState", || {
+                    format!(
+                        "{},\"present\":true,\"keyfound\":true,\"n\":{},\"tb\":{}",
+                        vitem(key, cache_item),
+                        state.num_items,
+                        state.total_bytes
+                    )
+                });
+            } else {
+                #[cfg(xet_verif)]
+                utils::verif::emit("CcRmState", || {
+                    format!(
+                        "{},\"present\":false,\"keyfound\":false,\"n\":{},\"tb\":{}",
+                        vitem(key, cache_item),
+                        state.num_items,
+                        state.total_bytes
+                    )
+                });
             }
         }
 
         let path = self.item_path(key, cache_item)?;
 
+        #[cfg(xet_verif)]
+        utils::verif::gate("cc_rmfile", "");
         if !path.exists() {
+            #[cfg(xet_verif)]
+            utils::verif::emit("CcRmFile", || "\"existed\":false".to_string());
             return Ok(());
         }
         remove_file(&path)?;
+        #[cfg(xet_verif)]
+        utils::verif::emit("CcRmFile", || "\"existed\":true".to_string());
         let dir_path = path.parent().ok_or(ChunkCacheError::Infallible)?;
         check_remove_dir(dir_path)
     }
